@@ -22,11 +22,38 @@ def method(n):
     return n.rsplit("::", 1)[-1]
 
 
+_NM_CACHE = {}
+
+
+def name_forms(n):
+    """alternative spellings of a callee: `<A as T>::m` also answers to `A::m` and `T::m`"""
+    r = _NM_CACHE.get(n)
+    if r is not None:
+        return r
+    forms = [n]
+    if n.startswith("<") and " as " in n and ">::" in n:
+        head, m = n.rsplit(">::", 1)
+        a, tr = head[1:].split(" as ", 1)
+        a = a.split("<", 1)[0].lstrip("&").replace("mut ", "").strip()
+        tr = tr.split("<", 1)[0]
+        forms.append(a + "::" + m)
+        forms.append(tr + "::" + m)
+    _NM_CACHE[n] = forms
+    return forms
+
+
+def name_matches(n, *suffixes):
+    for f in name_forms(n):
+        for s in suffixes:
+            if f == s or f.endswith("::" + s) or f.endswith(s):
+                return True
+    return False
+
+
 def is_call_to(t, *suffixes):
     if t["k"] != "call":
         return False
-    n = cname(t)
-    return any(n == s or n.endswith("::" + s) or n.endswith(s) for s in suffixes)
+    return name_matches(cname(t), *suffixes)
 
 
 def calls_to(fn, *suffixes):
@@ -222,8 +249,7 @@ def expr_calls(e):
 
 def has_call(e, *suffixes):
     for c in expr_calls(e):
-        n = strip_generics(c[1])
-        if any(n == s or n.endswith("::" + s) or n.endswith(s) for s in suffixes):
+        if name_matches(strip_generics(c[1]), *suffixes):
             return True
     return False
 
